@@ -82,9 +82,10 @@ def default_set(P, kind):
 KINDS = ('plain', 'renamed', 'split', 'changed', 'mix')
 VALUE_KINDS = ('default', 'variant', 'different', 'dquote', 'allow', 'deny',
                'empty', 'list1', 'list2', 'list0', 'alias', 'casevariant',
-               'aliasprefix', 'aliaslist', 'aliasspaced', 'astral')
+               'aliasprefix', 'aliaslist', 'aliasspaced', 'astral',
+               'aliaslast')
 QUICK_VARIANT_KINDS = ('default', 'different', 'empty', 'list1', 'alias',
-                       'aliaslist')
+                       'aliaslist', 'aliaslast')
 TEXT_KINDS = ('default', 'variant', 'different', 'allow', 'deny', 'empty',
               'casevariant', 'astral')
 
@@ -127,6 +128,11 @@ def value(vk, name, defaults, successors):
         # a role name with characters outside the ASCII range and outside
         # the Basic Multilingual Plane
         return 'role:d-\u00e9-\U0001f680'
+    if vk == 'aliaslast':
+        # after a split: the alias of the LAST successor (for the others it
+        # is an ordinary override that refers to that policy)
+        return 'rule:%s' % successors[name][-1] \
+            if name in successors and len(successors[name]) > 1 else None
     if vk == 'aliaslist':
         # the alias written in the list-of-lists syntax
         return [['rule:%s' % successors[name][0]]] \
